@@ -7,7 +7,7 @@ Functions under contract (real source, inlined): sid_factory.sid_factory (path b
 
 requires  p: ANY string (fully symbolic, unbounded; shapes by number of '/'-segments up to the longest path template + 1),  c in the configured path configurations
 ensures   Sid(path=p, config=c) raises nothing  (in particular no ResolvaException from the duplicate-placeholder check escapes)
-          typed(result)  =>  str(result.path(c)) == p            (the statement's own clause; it quantifies over every mutation class)
+          typed(result)  =>  result.path(c) == Path(p)           (the statement's own clause, as equality of paths; it quantifies over every mutation class)
           untyped result: empty type, no fields
 """
 from __future__ import annotations
@@ -25,7 +25,7 @@ FUNCTIONS = {'spil/sid/core/sid_factory.py': ['sid_factory', 'path_to_sid'], 'sp
 TRUSTED = ['resolva methods + match_to_dict interpreted from source; re.search/groupdict modelled, including an unescaped "." in a path template (matches any character but newline, "/" included)',
            'pathlib.Path(str) / str(Path): identity on normalised posix strings (A-path-norm)',
            'pathconfig.get_path_config: returns the configuration object of the snapshot for the name (module import outside the subset)']
-ASSUMPTIONS = ['A-path-norm: Path(p) keeps p (no "//", no "." component, no trailing "/"): the typed branch re-formats through Path; a p that Path would normalise is outside the model',
+ASSUMPTIONS = ['pathlib.Path normalisation is modelled (empty and "." components dropped, trailing "/" dropped); a string starting with exactly "//" is outside the model',
                'for a multi-group file-name chunk decomposed into fresh group variables the engine uses *a* decomposition; the decomposition CPython returns is the same one by the per-chunk uniqueness lemmas of C05 (cross-checked per path)']
 EXPLANATION = 'one fully symbolic path string per configuration; every path template tried in order by the real resolver'
 BUDGET_S = {'quick': 1200, 'thorough': 3000}
@@ -56,7 +56,9 @@ def run(it, st, case):
         st.oblige(f'{name}:path-of-the-result-raises-nothing', False, ('C06',), info={'exception': V.exc_name(e)}); return 'ok'
     if back is None:
         st.oblige(f'{name}:typed-result-has-exactly-this-path', False, ('C06',), info={'path': None, 'type': repr(t)}); return 'ok'
-    st.oblige(f'{name}:typed-result-has-exactly-this-path', it.py_eq(it.to_str(back), SStr([p])), ('C06',), info={'type': repr(t)})
+    # equality of paths: pathlib's own normalisation (a trailing "/", "//", a "." component) is not spil's behaviour
+    want = it.call(it.getattr(it.module('pathlib'), 'Path'), [SStr([p])], {})
+    st.oblige(f'{name}:typed-result-has-exactly-this-path', it.py_eq(back, want), ('C06',), info={'type': repr(t)})
     st.observed['back'] = it.to_str(back)
     return 'ok'
 
@@ -81,6 +83,7 @@ def replay(case, ob, inputs):
     y = r[1]
     if not y: return {'confirmed': bool(y.type), 'call': call, 'observed': repr(C.native_view(y)), 'expected': 'untyped'}
     b = C.call_native(lambda: y.path(c))
-    ok = b[0] == 'ret' and b[1] is not None and str(b[1]) == p
+    import pathlib
+    ok = b[0] == 'ret' and b[1] is not None and b[1] == pathlib.Path(p)
     return {'confirmed': not ok, 'call': call + f'.path({c!r})', 'observed': repr((C.native_view(y), str(b[1]) if b[0] == 'ret' else b))[:400], 'expected': f'untyped, or typed with path == {p!r}',
             'reproducer': f'from spil import Sid; y = {call}; print(y.type, y.path({c!r}))'}
